@@ -1,6 +1,70 @@
-From FV Require Import Base.Str Base.Lines Base.LinesFacts C02.Model.
+(* C02/Props.v -- property theorems only.  Statement of C02 (properties.jsonl):
+   after any sequence of didOpen/didChange the text the server holds equals the text an
+   LSP-conforming client holds.  Model: C02/Model.v; tie: harness/props/c02.py. *)
+From FV Require Import Base.Str Base.Lines Base.LinesFacts C02.Model C02.Proofs.
 
+(* splitlines is compositional except across a CR|LF junction *)
 Theorem splitlines_glue : forall a b,
   clean a b = true -> splitlines (a ++ b) = glue (splitlines a) (splitlines b).
 Proof. exact splitlines_app. Qed.
 Print Assumptions splitlines_glue.
+
+(* One ranged change.  The client's text is pre ++ mid ++ suf, the range addresses mid
+   (start = position after pre, end = position after pre ++ mid; the first two hypotheses
+   say that both are positions of the document, i.e. not inside a CRLF pair), the client
+   replaces mid by new.  Last two hypotheses: the edit is junction-clean. *)
+Theorem apply_change_refines_client : forall pre mid suf new,
+  clean pre mid = true -> clean (pre ++ mid) suf = true ->
+  clean pre new = true -> clean (pre ++ new) suf = true ->
+  apply_change (splitlines (pre ++ mid ++ suf)) (Some (range_of pre mid)) new
+  = Some (splitlines (client_apply pre mid suf new)).
+Proof. exact apply_change_refines. Qed.
+Print Assumptions apply_change_refines_client.
+
+Theorem whole_document_change : forall d new,
+  apply_change d None new = Some (splitlines new).
+Proof. exact whole_document. Qed.
+Print Assumptions whole_document_change.
+
+(* every history of junction-clean in-document changes (ranged and whole-document) *)
+Theorem sync_history : forall t chs t',
+  history t chs t' -> apply_changes (splitlines t) chs = splitlines t'.
+Proof. exact sync_history_lemma. Qed.
+Print Assumptions sync_history.
+
+Theorem coordinates_agree : forall t chs t',
+  history t chs t' ->
+  map (@length char) (apply_changes (splitlines t) chs) = map (@length char) (splitlines t').
+Proof. exact coordinates_preserved. Qed.
+Print Assumptions coordinates_agree.
+
+(* LF and CRLF documents/insertions (no lone CR) satisfy every junction hypothesis *)
+Theorem no_lone_cr_is_enough : forall a b, cr_only_before_lf a = true -> clean a b = true.
+Proof. exact crlf_texts_are_clean. Qed.
+Print Assumptions no_lone_cr_is_enough.
+
+(* The junction hypothesis cannot be dropped: "a\rb\nc", delete "b". *)
+Theorem C02_refuted_cr_lf_junction : exists pre mid suf new,
+  clean pre mid = true /\ clean (pre ++ mid) suf = true /\
+  apply_change (splitlines (pre ++ mid ++ suf)) (Some (range_of pre mid)) new
+  <> Some (splitlines (client_apply pre mid suf new)).
+Proof.
+  exists [97; 13]%N, [98]%N, [10; 99]%N, []. repeat split; try reflexivity.
+  vm_compute. discriminate.
+Qed.
+Print Assumptions C02_refuted_cr_lf_junction.
+
+(* non-vacuity: a 3-line CRLF document with a multi-line replacement meets all hypotheses,
+   and the history predicate is inhabited by a two-step history *)
+Example C02_nonvacuous :
+  let pre := [97; 13; 10; 98]%N in let mid := [99; 13; 10; 100]%N in
+  let suf := [101; 13; 10; 102]%N in let new := [120; 13; 10; 121; 13; 10]%N in
+  clean pre mid = true /\ clean (pre ++ mid) suf = true /\
+  clean pre new = true /\ clean (pre ++ new) suf = true /\
+  range_of pre mid = (1, 1, 2, 1) /\
+  history (pre ++ mid ++ suf) [(Some (range_of pre mid), new); (None, [122]%N)] [122]%N.
+Proof.
+  cbv zeta. repeat split; try reflexivity.
+  apply h_range; try reflexivity. apply h_full. apply h_nil.
+Qed.
+Print Assumptions C02_nonvacuous.
